@@ -3,6 +3,8 @@
 From Coq Require Import ZArith List Bool.
 From Verif Require Import Base.Wrap Gen.GenConsts Gen.GenRetry Spec.RetryTable Model.Retry Proofs.RetryP
   Spec.PeerSelect Model.PeerHeap Model.PeerList Proofs.PeerListP Proofs.RetryAvoidP.
+From Verif Require Import Base.GoErr Gen.GenErrors Gen.GenRetryOpts Gen.GenRetryErr Spec.RetryOptsSpec
+  Model.RetryOpts Proofs.RetryOptsP.
 Import ListNotations.
 Local Open Scope Z_scope.
 
@@ -67,4 +69,111 @@ Example C17_example :
   let f : attempt_fn := fun a _ => (nth (Z.to_nat (a - 1)) [busy; busy; nil_err] nil_err, [[49; 58; 50]]) in
   fst (run_with_retry None f) = nil_err /\ map ao_attempt (snd (run_with_retry None f)) = [1; 2; 3]
   /\ map ao_seen (snd (run_with_retry None f)) = [[]; [[49;58;50];[49]]; [[49;58;50];[49];[49;58;50];[49]]].
+Proof. vm_compute. repeat split. Qed.
+
+(* ---------------------------------------------------------------------------------------
+   The options path and the error classification (definitions regenerated from
+   context_builder.go / retry.go / errors.go: Gen/GenRetryOpts.v, Gen/GenRetryErr.v).      *)
+
+(* For every sequence of ContextBuilder setter calls (SetRetryOptions with nil or any struct,
+   SetTimeoutPerAttempt; any order, repeated), Build + getRetryOptions never panic and
+   RunWithRetry sees, per field, the last value given to that field, MaxAttempts 0 => 5,
+   nothing set / a context without TChannel parameters => (5, RetryDefault, 0). *)
+Theorem C17_options : forall has_params ops,
+  cb_effective has_params ops = Some (cb_of (spec_effective has_params ops)).
+Proof. exact cb_effective_spec. Qed.
+Print Assumptions C17_options.
+
+(* The model of the options path IS the code: each function equals the definition regenerated
+   from context_builder.go / retry.go (on the generated RetryOptions record), the default struct
+   is the generated one. *)
+Theorem C17_options_generated :
+  v_defaultRetryOptions = to_gen cb_opts_default /\
+  (forall ro a, cbSetRetryOptions (to_genp ro) (to_genp a) = option_map to_genp (m_set_retry_options ro a)) /\
+  (forall ro d, cbSetTimeoutPerAttempt (to_genp ro) d = option_map to_genp (m_set_timeout_per_attempt ro d)) /\
+  (forall ro, cbBuildRetryOptions (to_genp ro) = to_genp (m_build_retry_options ro)) /\
+  (forall hp p, getRetryOptions hp (to_genp p) = option_map to_genp (m_get_retry_options hp p)).
+Proof.
+  exact (conj tie_default (conj tie_set_retry_options (conj tie_set_timeout_per_attempt
+          (conj tie_build tie_get_retry_options)))).
+Qed.
+Print Assumptions C17_options_generated.
+
+(* ... and the classification the loop model uses (generated CanRetry / getErrCode on the flat
+   view of a shape) is the shape-level isNetError / GetSystemErrorCode / getErrCode / CanRetry
+   regenerated from retry.go and errors.go. *)
+Theorem C17_classes_generated :
+  (forall e, getErrCodeS e = m_err_code e) /\ (forall r e, CanRetryS r e = m_can_retry r e).
+Proof. exact (conj tie_err_code tie_can_retry). Qed.
+Print Assumptions C17_classes_generated.
+
+(* Error classification: for EVERY error shape -- nil, plain (wrapping anything), net.Error,
+   SystemError of any code wrapping nil / plain / net.Error / another SystemError, nested to
+   any depth -- the code the policy looks at is the documented one: a SystemError's own code
+   wins, only a bare net.Error is a network error. *)
+Theorem C17_errcode : forall e, getErrCodeS e = spec_err_code e.
+Proof. exact errcode_spec. Qed.
+Print Assumptions C17_errcode.
+
+(* ... in particular for what the public constructor builds *)
+Theorem C17_errcode_wrapped : forall code w,
+  getErrCodeS (NewWrappedSystemError g_is_sys GSys code w) = match w with GSys c _ => c | _ => code end.
+Proof. exact errcode_new_wrapped. Qed.
+Print Assumptions C17_errcode_wrapped.
+
+(* The policy table over shapes (the classification composed with C17_table). *)
+Theorem C17_table_shapes : forall r p e, policy_of r = Some p -> e <> GNil ->
+  CanRetryS r e = retryable p (classify_shape e).
+Proof. exact can_retry_shape_table. Qed.
+Print Assumptions C17_table_shapes.
+
+(* The builder path runs the loop of C17_budget / C17_stop / C17_seen with the last-given options. *)
+Theorem C17_builder_path : forall has_params ops fs,
+  run_with_retry_cb has_params ops fs = Some (run_with_retry (Some (spec_opts has_params ops)) (abs_fn fs)).
+Proof. exact run_with_retry_cb_spec. Qed.
+Print Assumptions C17_builder_path.
+
+(* Budget over the builder path: 1..m calls numbered 1..k, m = the MaxAttempts last given (0 => 5). *)
+Theorem C17_budget_builder : forall (has_params : bool) (ops : list cb_op) fs,
+  let m := spec_max_attempts (if has_params then ops else []) in
+  1 <= m ->
+  exists r, run_with_retry_cb has_params ops fs = Some r /\
+    (1 <= length (snd r))%nat /\ Z.of_nat (length (snd r)) <= m /\
+    map ao_attempt (snd r) = map (fun i => 1 + Z.of_nat i) (seq 0 (length (snd r))).
+Proof. exact run_cb_budget. Qed.
+Print Assumptions C17_budget_builder.
+
+(* Stop rule over the builder path, against the documented table on error shapes. *)
+Theorem C17_stop_builder : forall (has_params : bool) (ops : list cb_op) (outs : list gerr) fs p,
+  let m := spec_max_attempts (if has_params then ops else []) in
+  let ron := spec_retry_on (if has_params then ops else []) in
+  policy_of ron = Some p ->
+  (Z.to_nat m <= length outs)%nat ->
+  (forall a s, 0 < a -> fst (fs a s) = nth (Z.to_nat (a - 1)) outs GNil) ->
+  exists r log, run_with_retry_cb has_params ops fs = Some (r, log) /\
+    let k := length log in
+    (k <= Z.to_nat m)%nat /\
+    (forall i, (i + 1 < k)%nat ->
+       nth i outs GNil <> GNil /\ retryable p (classify_shape (nth i outs GNil)) = true) /\
+    (k <> O -> let e := nth (k - 1) outs GNil in
+       (e = GNil /\ r = nil_err) \/
+       (e <> GNil /\ r = g_abs e /\ (retryable p (classify_shape e) = false \/ k = Z.to_nat m))).
+Proof. exact run_cb_stop. Qed.
+Print Assumptions C17_stop_builder.
+
+(* The harness encoding reaches every shape. *)
+Theorem C17_shape_encoding : forall e rest, take_shape (put_shape e ++ rest) = (e, rest).
+Proof. exact take_shape_put. Qed.
+Print Assumptions C17_shape_encoding.
+
+(* Non-vacuity: SetRetryOptions{MaxAttempts 2, NonIdempotent} then SetTimeoutPerAttempt keeps the
+   budget of 2; a bad-request SystemError wrapping a net.Error is not retried under the default
+   policy, a busy one wrapping a net.Error is retried under RetryNonIdempotent. *)
+Example C17_example_builder :
+  let ops := [OpSetRetryOptions (Some (2, 3, 0)); OpSetTimeoutPerAttempt 1000000] in
+  let busy_net := GSys 3 (GNet true) in
+  spec_effective true ops = (2, 3, 1000000) /\
+  option_map (fun r => map ao_attempt (snd r)) (run_with_retry_cb true ops (fun _ _ => (busy_net, []))) = Some [1; 2] /\
+  CanRetryS 0 (GSys 6 (GNet false)) = false /\ CanRetryS 3 busy_net = true /\
+  getErrCodeS (GPlain (GNet true)) = 5.
 Proof. vm_compute. repeat split. Qed.
